@@ -451,3 +451,6 @@ pub fn tr_subtract_green(image_data: &mut [u8]) {
 pub fn tr_color_indexing(image_data: &mut [u8], width: u16, height: u16, table_size: u16, table_data: &[u8]) {
     crate::lossless_transform::apply_color_indexing_transform(image_data, width, height, table_size, table_data);
 }
+
+/// VP8 parsing functions at component level (`vp8::verif_parse`): `Vp8Parser` wraps a real `Vp8Decoder`.
+pub use crate::vp8::verif_parse::{DecState, FrameState, MbState, ParseState, SegState, Vp8Parser};
